@@ -167,6 +167,8 @@ def random_case(r):
     kws = [rand_kw(r) for _ in range(r.randint(1, 5))]
     if r.random() < 0.4:
         kws.append(kws[0][: max(1, len(kws[0]) - 1)])  # prefix of another
+    if r.random() < 0.4 and len(kws[0]) > 2:
+        kws.append(kws[0][1:])  # suffix of another: nested at a positive offset
     if r.random() < 0.2:
         kws.append(kws[0].swapcase())
     data = random_data(r, kws)
@@ -202,6 +204,8 @@ def make_kw_dir(r, d):
             kws.append(kws[0])  # duplicate
         if kws and r.random() < 0.3:
             kws.append(kws[0].swapcase())
+        if kws and len(kws[0]) > 2 and r.random() < 0.4:
+            kws.append(kws[0][1:])  # nested inside another keyword at a positive offset
         nl = r.choice([b"\n", b"\r\n"])
         raw = b""
         for k in kws:
@@ -219,6 +223,7 @@ def make_kw_dir(r, d):
 
 
 def judge_dir(d, files, datas, ctx, case):
+    from multidecoder.multidecoder import Multidecoder
     from multidecoder.registry import get_keywords
 
     ctx.count("registry_dirs")
@@ -240,6 +245,19 @@ def judge_dir(d, files, datas, ctx, case):
             ctx.nontrivial(repr((case["files"], data)))
         if g != want:
             ctx.violation("keyword:registry-path", f"registry built from a keyword directory: got {g[:4]} want {want[:4]} on {data[:60]!r}", case)
+            continue
+        # the same searchers used by a scanner in between (hits nested inside other hits get re-based by the engine),
+        # then asked again for the same bytes: the answer must not have changed
+        try:
+            Multidecoder(list(reg)).scan(b"zz " + data)
+            Multidecoder(list(reg)).scan(data)
+        except Exception:  # noqa: BLE001
+            pass
+        g2 = canon_hits([n for search in reg for n in search(data)])
+        ctx.count("registry_calls_after_scan")
+        if g2 != want:
+            ctx.violation("keyword:registry-path:after-scan", f"after a scan used the same searchers, they report {g2[:4]} instead of "
+                                                              f"{want[:4]} on {data[:60]!r}", case)
 
 
 def replay(case, ctx):
